@@ -16,6 +16,7 @@ C01 — every library code is a valid [[n,k]] stabilizer code.
 import PanqecVerif.Instances.All
 import PanqecVerif.Proofs.CodeAlgebra
 import PanqecVerif.Proofs.DeformTable
+import PanqecVerif.Proofs.Deform
 
 namespace Panqec.C01
 open Panqec
@@ -41,6 +42,16 @@ theorem deformation_maps_are_permutations :
     ∀ e ∈ Generated.deformationTable, e.2.2.isPerm = true := by
   intro e he
   exact List.all_eq_true.mp deformationTable_perm e he
+
+/-- Every deformation of a valid code is a valid code: for ANY assignment of permutations of
+    {X,Y,Z} to the qubits (all sizes, all codes), relabelling every generator and logical keeps
+    all four clauses, rank included.  With `deformation_maps_are_permutations` this covers every
+    deformation name and axis any class offers. -/
+theorem deformed_code_valid {n k : Nat} {Ds : List PauliMap} (hlen : Ds.length = n)
+    (hperm : ∀ D ∈ Ds, D.isPerm = true) {H Lx Lz : List (List Nat)}
+    (hv : ValidCodeL n k H Lx Lz) :
+    ValidCodeL n k (H.map (deformBsf Ds)) (Lx.map (deformBsf Ds)) (Lz.map (deformBsf Ds)) :=
+  Deform.validCode_deform hlen hperm hv
 
 /-- The valid-code statement for one packed instance. -/
 abbrev InstanceValid (p : MaskCode × RankCert) : Prop :=
